@@ -56,7 +56,10 @@ RULE_ADDED = (
               'FICATE line (12% of the chains, all chain-building checks). '
               ' '
               'Round 15: attestation key off the curve with a chord-constructed (r, r) quote si'
-              'gnature. ')
+              'gnature. '
+              ' '
+              'Round 16: chains whose certifying certificates say CA=FALSE or carry no basic co'
+              'nstraints (one chain in eight). ')
 RULE = RULE + " " + RULE_ADDED.strip()
 ASSUMPTIONS = [
     "oracle: pv/oracle/certv2.py; X.509 parsing itself is shared (cryptography), signature "
